@@ -776,6 +776,8 @@ FORMATS = {
             ["r1\t0\tchr1\t10\t60\t4M\t*\t0\t0\tACGT\tIIII\tNM:i:0", "r2\t16\tchr1\t20\t30\t2M1I1M\t=\t5\t-7\tGGCA\t!!I#\tNM:i:1",
              "read3\t99\tchr1\t7\t0\t3M\t=\t30\t+26\tTTT\t###\tAS:i:-3"]),
     "fastq": (".fq", None, "", ["@r1\nACGT\n+\nIIII", "@r2 d\nGGC\n+\n!#I", "@read3\nT\n+\n5"]),
+    # sequences of whole codons: translate_dna_to_protein applies to these chunks (multi-step histories)
+    "fastq-codons": (".fq", None, "", ["@r1\nACGTAC\n+\nIIIIII", "@r2 d\nGGC\n+\n!#I", "@read3\nTTTGGGAAA\n+\n555555555"]),
     "gfa": (".gfa", None, "", ["S\t1\tACGT", "S\t2\tGG", "S\tnode3\tTTTA"]),
     "sizes": (".sizes", None, "", ["chr1\t100", "chr2\t50", "chrX\t7"]),
     "pairs": (".pairs", None, "## pairs format v1.0\n#columns: readID chr1 pos1 chr2 pos2 strand1 strand2\n",
@@ -869,6 +871,7 @@ class ChunkEnv:
         with open(self.path, "wb") as f:
             f.write(self.data)
         self._n = 0
+        self._hist_base, self._settable = {}, None       # multi-step histories: baselines per step-1 history, assignable fields
         c = self.fresh()
         self.lazy = hasattr(c, "_itemgetter")
         self.n_entries = len(c)
@@ -1040,8 +1043,17 @@ def eval_chunk(col, env, scenario):
     fmt = env.fmt
     case = {"section": "chunk", "format": fmt, "lines": env.lines, "scenario": scenario}
     kind = scenario[0]
-    col.case(case, contract="chunk:" + kind)
     sig = lambda what: "chunk:%s:%s" % (fmt, what)
+    if kind in ("history", "history-chain"):
+        # counted after the evaluation: a case whose second operation does not apply (it raised) is counted as trivial
+        nontrivial = True
+        try:
+            nontrivial = _eval_history(col, env, scenario, case, sig) is not False
+        except Exception as e:
+            col.fail(sig(kind + ":exception:" + type(e).__name__), case, traceback.format_exc()[-600:])
+        col.case(case, nontrivial=nontrivial, contract="chunk:" + kind)
+        return
+    col.case(case, contract="chunk:" + kind)
     try:
         _eval_chunk(col, env, scenario, case, sig)
     except Exception as e:
@@ -1180,7 +1192,334 @@ def _eval_chunk(col, env, scenario, case, sig):
         raise KeyError(kind)
 
 
-LIGHT_IN_QUICK = ("vcf-info-string", "vcf-gt-phased", "vcf-gt-haplotype", "vcf-gt-strings", "vcf-noheader", "gff", "bed12-trailing-comma")
+# ----------------------------------------------------------------------------------------------------------------
+# multi-step histories: a second public operation on a lazily read chunk that ALREADY carries user-set values
+#
+#   step 1   T.f1 = new1  on a freshly read chunk           (mode "setattr"; explicit assignment, allowed to change T)
+#            T = bnp.replace(chunk, f1=new1)                (mode "replace"; `chunk` is watched as well)
+#   step 2   one public operation on T that is NOT an assignment on T: bnp.replace(T, f2=new2), functions implemented
+#            through replace (get_reverse_complement, translate_dna_to_protein), indexing, np.concatenate, writing,
+#            conversions, assignment on a SLICE of T ...
+#   step 3   T is observed: every field, the bytes it writes, tolist().  They must be exactly what they were after step 1.
+#
+# "What they were after step 1" is taken from a twin: a second chunk read from the same file and taken through the same
+# step 1 (with its own, equal new1), observed in the same order, never touched by step 2.  With the flag "observe-first" T
+# itself is observed before step 2 and compared with itself afterwards.  Results of step 2 are never compared with an
+# expected value; an operation that raises is tolerated (applicability to a modified chunk is not part of this property),
+# the case is then counted as trivial - T must be unchanged all the same.
+# ----------------------------------------------------------------------------------------------------------------
+
+HISTORY_MODES = ("setattr", "replace")
+
+
+def _new_value(v, salt=1):
+    """a value of the same type and length as the column v with other contents; salt 2: another one, different from salt 1"""
+    import numpy as np
+    if isinstance(v, np.ndarray) and v.dtype.kind in "iuf":
+        return v + salt
+    if isinstance(v, np.ndarray) and v.dtype.kind == "b":
+        return ~v if salt == 1 else v.copy()
+    if salt != 1:
+        return v                           # the file's own rows (the salt 1 value differs from them)
+    n = len(v)
+    if n < 2:
+        return None
+    s0 = snap(v)
+    for perm in (slice(None, None, -1), [(i + 1) % n for i in range(n)]):      # reversed rows; rotated when that is a palindrome
+        try:
+            w = v[perm]
+        except Exception:
+            continue
+        if snap(w) != s0:
+            return w
+    return None
+
+
+def _settable(env):
+    """top-level columns of the format that can be read and for which a different value exists (file order)"""
+    if env._settable is None:
+        env._settable = []
+        c = env.fresh()
+        for k in env.plain_top:
+            if env.V0[k][0] == "raises":
+                continue
+            try:
+                if _new_value(read_field(c, k), 1) is not None:
+                    env._settable.append(k)
+            except Exception:
+                pass
+    return env._settable
+
+
+def _history_start(env, mode, f1, read_first=False):
+    """step 1 -> (source chunk or None, T, new1)"""
+    import bionumpy as bnp
+    new1 = _new_value(read_field(env.fresh(), f1), 1)
+    if new1 is None:
+        return None, None, None
+    c = env.fresh()
+    if read_first:                         # every field parsed (and cached by the lazy table) before the assignment
+        for p in env.paths:
+            read_snap(c, p)
+    if mode == "setattr":
+        setattr(c, f1, new1)
+        return None, c, new1
+    return c, bnp.replace(c, **{f1: new1}), new1
+
+
+def _observe(env, T):
+    """everything the property lets a user see of a chunk: fields, written bytes, tolist()"""
+    obs = [["field:" + p, read_snap(T, p)] for p in env.paths]
+    try:
+        obs.append(["written-bytes", ["bytes", env.write(T).decode("latin1")]])
+    except Exception as e:
+        obs.append(["written-bytes", ["raises", type(e).__name__]])
+    try:
+        obs.append(["tolist", ["value", snap(T.tolist())]])
+    except Exception as e:
+        obs.append(["tolist", ["raises", type(e).__name__]])
+    return obs
+
+
+def _history_baseline(env, mode, f1, read_first):
+    key = (mode, f1, bool(read_first))
+    if key not in env._hist_base:
+        env._hist_base[key] = _observe(env, _history_start(env, mode, f1, read_first)[1])
+    return env._hist_base[key]
+
+
+def _compare_obs(col, case, signature_of, base, got, what):
+    """first observable that differs -> one failure '<...>-field-changed' / '-written-bytes-changed' / '-tolist-changed'"""
+    for (k, a), (_, b) in zip(base, got):
+        if a != b:
+            col.fail(signature_of(k.split(":")[0]), case, "%s, %s: %s" % (what, k, first_diff(a, b)))
+            return False
+    return True
+
+
+def _use(env, R):
+    """the object a second operation returned is used as well (written); whether that works is not checked here"""
+    if hasattr(R, "_itemgetter"):
+        try:
+            env.write(R)
+        except Exception:
+            pass
+
+
+def _history_ops(env):
+    """second operations without a field argument: name -> f(T, twin) (twin() builds another chunk with the same history)"""
+    import numpy as np
+    import bionumpy as bnp
+    n = env.n_entries
+    F = {
+        "replace-nothing": lambda T, twin: bnp.replace(T),
+        "getitem/all": lambda T, twin: T[:],
+        "getitem/tail": lambda T, twin: T[1:],
+        "getitem/reverse": lambda T, twin: T[::-1],
+        "getitem/mask": lambda T, twin: T[np.arange(n) % 2 == 0],
+        "getitem/list": lambda T, twin: T[[n - 1, 0]],
+        "getitem/int": lambda T, twin: T[0],
+        "getitem/int-last": lambda T, twin: T[-1],
+        "concatenate/same-history": lambda T, twin: np.concatenate([T, twin()]),
+        "concatenate/with-itself": lambda T, twin: np.concatenate([T, T]),
+        "concatenate/fresh-second": lambda T, twin: np.concatenate([T, env.fresh()]),
+        "concatenate/fresh-first": lambda T, twin: np.concatenate([env.fresh(), T]),
+        "write": lambda T, twin: env.write(T),
+        "write/slice": lambda T, twin: env.write(T[1:]),
+        "str": lambda T, twin: str(T),
+        "repr": lambda T, twin: repr(T),
+        "iter": lambda T, twin: list(T),
+        "toiter": lambda T, twin: list(T.toiter()),
+        "todict": lambda T, twin: T.todict(),
+    }
+    for name, f in _table_functions_for_chunk(env).items():
+        if name not in ("concatenate", "getitem-mask", "getitem-reverse"):
+            F[name] = (lambda g: (lambda T, twin: g(T)))(f)
+    if env.fmt in ("fastq", "fastq-codons", "gfa"):
+        F["translate_dna_to_protein"] = lambda T, twin: bnp.sequence.translate_dna_to_protein(T)
+    return F
+
+
+HISTORY_FIELD_OPS = ("replace", "slice-setattr", "slice-replace")      # second operations that take a field f2 and a value
+
+
+def _op_class(op):
+    return op.split("/")[0].split("@")[0]
+
+
+def _eval_history(col, env, scenario, case, sig):
+    """returns False when the second operation did not apply (raised); failures go to col"""
+    import bionumpy as bnp
+    if scenario[0] == "history-chain":
+        return _eval_history_chain(col, env, scenario, case, sig)
+    mode, f1, op, f2 = scenario[1:5]
+    flags = scenario[5] if len(scenario) > 5 else []
+    read_first, observe_first = "read-first" in flags, "observe-first" in flags
+    opc = _op_class(op)
+    B, T, new1 = _history_start(env, mode, f1, read_first)
+    if new1 is None:
+        return False
+    if observe_first:
+        base = _observe(env, T)
+    else:
+        base = _history_baseline(env, mode, f1, read_first)
+    watched = [new1]
+    pT = chunk_private_state(T)
+    pB = chunk_private_state(B) if B is not None else None
+    applied = True
+    new2 = None
+    if op in HISTORY_FIELD_OPS:
+        new2 = _new_value(read_field(env.fresh(), f2), 1 if f2 != f1 else 2)
+        if new2 is None:
+            return False
+        watched.append(new2)
+    s_watched = snap(watched)
+    try:
+        if op == "replace":
+            R = bnp.replace(T, **{f2: new2})
+        elif op == "slice-setattr":
+            R = T[:]
+            setattr(R, f2, new2)           # explicit assignment - on ANOTHER object than T
+        elif op == "slice-replace":
+            R = bnp.replace(T[::-1], **{f2: new2})
+        else:
+            R = _history_ops(env)[op](T, lambda: _history_start(env, mode, f1, read_first)[1])
+        _use(env, R)
+    except Exception:
+        applied = False
+    got = _observe(env, T)
+    _compare_obs(col, case, lambda o: sig("history:%s:original-%s-changed" % (opc, o)), base, got,
+                 "chunk with %s set by %s, after %s%s" % (f1, mode, op, "(%s)" % f2 if f2 else ""))
+    s1 = snap(watched)
+    col.check(s1 == s_watched, sig("history:%s:value-handed-over-changed" % opc), case,
+              "the arrays assigned in step 1 / passed to the second operation changed: " + first_diff(s_watched, s1))
+    if pT is not None:
+        p1 = chunk_private_state(T)
+        col.check(p1 == pT, sig("history:%s:original-buffer-changed" % opc), case,
+                  "bytes/offsets held by the chunk changed: " + first_diff(pT, p1))
+    if B is not None:
+        # the freshly read chunk that step 1 made T from: still what a fresh chunk is
+        _check_unchanged(col, env, B, pB, case, sig, "second-operation-on-its-replaced-copy")
+        for p in env.paths:
+            v = read_snap(B, p)
+            if not col.check(v == env.V0[p], sig("history:%s:source-chunk-field-changed" % opc), case,
+                             "field %s of the chunk that was read: %s" % (p, first_diff(env.V0[p], v))):
+                break
+    return applied
+
+
+def _chain(env, fields, upto, first_by_setattr):
+    """t0 = fresh chunk, t_i = replace(t_(i-1), f_i = new_i) (t1 = t0 with f1 assigned when first_by_setattr) -> [t0 .. t_upto]"""
+    import bionumpy as bnp
+    ts = [env.fresh()]
+    for i, f in enumerate(fields[:upto]):
+        new = _new_value(read_field(env.fresh(), f), 1)
+        if i == 0 and first_by_setattr:
+            setattr(ts[0], f, new)
+            ts.append(ts[0])
+        else:
+            ts.append(bnp.replace(ts[-1], **{f: new}))
+    return ts
+
+
+def _eval_history_chain(col, env, scenario, case, sig):
+    first, fields = scenario[1], scenario[2]
+    by_setattr = first == "setattr"
+    ts = _chain(env, fields, len(fields), by_setattr)
+    _use(env, ts[-1])
+    ok = True
+    for j in range(1 if by_setattr else 0, len(fields)):           # every chunk of the chain but the last one
+        base = _observe(env, _chain(env, fields, j, by_setattr)[j])
+        got = _observe(env, ts[j])
+        ok = _compare_obs(col, case, lambda o: sig("history:replace-chain:original-%s-changed" % o), base, got,
+                          "chunk number %d of the replace chain over %r" % (j, fields)) and ok
+    return True
+
+
+def _ring(fields):
+    """every field once as the first and once as the second of a pair, in both orders"""
+    n = len(fields)
+    if n < 2:
+        return []
+    out = []
+    for i in range(n):
+        a, b = fields[i], fields[(i + 1) % n]
+        for pair in ((a, b), (b, a)):
+            if pair not in out:
+                out.append(pair)
+    return out
+
+
+ALL_PAIRS_IN_QUICK = 7      # quick tier: all ordered pairs for formats with at most this many assignable columns, else the ring
+
+
+def history_scenarios(env, tier, full_file):
+    """level 3: thorough, whole pool / 2: quick, whole pool / 1: thorough, sub-selection / 0: quick, first line only"""
+    if not env.lazy:
+        return
+    level = (3 if full_file else 1) if tier != "quick" else (2 if full_file else 0)
+    S = _settable(env)
+    if not S:
+        return
+    ring = _ring(S)
+    all_pairs = [(a, b) for a in S for b in S]                      # includes f2 == f1 (replaced by yet another value)
+    if level == 3 or (level == 2 and len(S) <= ALL_PAIRS_IN_QUICK):
+        pairs = all_pairs
+    else:
+        pairs = ring
+    # (a) replace of f2 on a chunk that carries f1
+    for mode in HISTORY_MODES:
+        for a, b in pairs:
+            yield ["history", mode, a, "replace", b]
+            if level == 3:
+                yield ["history", mode, a, "replace", b, ["read-first"]]
+    for i, (a, b) in enumerate(ring):
+        modes = HISTORY_MODES if level in (1, 3) else HISTORY_MODES[i % 2:i % 2 + 1]
+        for mode in modes:
+            if level >= 1:
+                yield ["history", mode, a, "replace", b, ["observe-first"]]
+                yield ["history", mode, a, "slice-setattr", b]
+            if level == 3 or (level == 2 and i % 2 == 0):
+                yield ["history", mode, a, "slice-replace", b]
+            if level in (1, 2):
+                yield ["history", mode, a, "replace", b, ["read-first"]]
+            if level == 3:
+                yield ["history", mode, a, "slice-setattr", b, ["read-first"]]
+    # (b) second operations without a field argument
+    ops = list(_history_ops(env))
+    seq_fields = [k for k in S if k in ("sequence", "dna")]
+    if level == 3:
+        firsts = [(m, k, fl) for k in S for m in HISTORY_MODES for fl in ([], ["read-first"])]
+    elif level == 2:
+        firsts = [(HISTORY_MODES[i % 2], k, []) for i, k in enumerate(S[:2])]
+        firsts += [(m, k, []) for k in seq_fields for m in HISTORY_MODES if (m, k, []) not in firsts]
+    elif level == 1:
+        firsts = [(HISTORY_MODES[(i + len(env.lines)) % 2], k, []) for i, k in enumerate(S[:2])]
+    else:
+        firsts = [("setattr", S[0], [])]
+        ops = [o for o in ops if _op_class(o) in ("replace-nothing", "getitem", "write", "tolist")]
+    for mode, k, fl in firsts:
+        for op in ops:
+            yield ["history", mode, k, op, None] + ([fl] if fl else [])
+    if level >= 2:
+        for k in S[:2]:
+            for op in ("replace-nothing", "getitem/reverse", "concatenate/same-history", "write", "get_data_object"):
+                yield ["history", "replace", k, op, None, ["observe-first"]]
+    # (c) chains of replace: t1 = replace(t, a=..); t2 = replace(t1, b=..); ... - every earlier chunk observed at the end
+    chains = [S[:2], S[:4], S[::-1][:4]]
+    if level >= 2:
+        chains += [S, S[::-1]]
+    if level == 3:
+        chains += [[S[(i + j) % len(S)] for j in range(3)] for i in range(len(S))]
+    seen = []
+    for ch in chains:
+        if len(ch) >= 2 and ch not in seen:
+            seen.append(ch)
+            yield ["history-chain", "replace", ch]
+            yield ["history-chain", "setattr", ch]
+
+
+LIGHT_IN_QUICK = ("fastq-codons", "vcf-info-string", "vcf-gt-phased", "vcf-gt-haplotype", "vcf-gt-strings", "vcf-noheader", "gff", "bed12-trailing-comma")
 
 
 def chunk_files(fmt, tier):
@@ -1239,6 +1578,7 @@ def chunk_scenarios(env, tier, full_file):
                 yield ["value-fn", p, fname]
         for name in _table_functions_for_chunk(env):
             yield ["table-fn", name]
+    yield from history_scenarios(env, tier, full_file)
 
 
 def run_chunks(col, tier, tmp):
